@@ -302,6 +302,18 @@ def r4(ctx):
         n += 1
         ctx.emit('C01-R4', ok and starts, BASEDEMUX, r, f'asFastq returns {src(r.value)[:80]}: shape {sh} ' + ('(4 terminated lines, starts with @)' if ok and starts else '- not a complete FASTQ record'),
                  key='asFastq-shape')
+    # serialisation refuses a record only for a field that is None (or an over-long header): an EMPTY sequence / quality string is a legal
+    # record; refusing it after the first mate was written already leaves the pair half written and rejected as well
+    def bare_operands(e):
+        if isinstance(e, ast.UnaryOp) and isinstance(e.op, ast.Not):
+            return bare_operands(e.operand)
+        if isinstance(e, ast.BoolOp):
+            return [x for v in e.values for x in bare_operands(v)]
+        return [e] if isinstance(e, (ast.Name, ast.Attribute, ast.Subscript)) else []
+    truthy = [(t_, x) for t_ in walk_no_nested(a) if isinstance(t_, (ast.If, ast.IfExp)) for x in bare_operands(t_.test)]
+    ctx.emit('C01-R4', not truthy, BASEDEMUX, truthy[0][0] if truthy else a, 'asFastq tests its fields with `is None` only (an empty string is serialised, not refused)' if not truthy else
+             f'asFastq tests `{src(truthy[0][1])}` for truth: an empty sequence / quality string raises while the mate written before it stays in the output',
+             key='asFastq-refuses-only-None', what='asFastq refuses records with an empty (not missing) field')
     # __repr__ -> asFastq (FastqHandle writes str(record))
     rp = ctx.fn(BASEDEMUX, 'TaggedRecord.__repr__')
     ok = any(isinstance(r, ast.Return) and src(r.value) == 'self.asFastq()' for r in walk_no_nested(rp))
